@@ -213,7 +213,8 @@ Print Assumptions C16_dispatch_nonvacuous.
 (* WITHIN THE ADVERTISED WINDOW.  [apply_peer_window e adv] is what establishment does once the peer's
    SCCRQ / SCCRP is known (SetPeerWindow with the Receive Window Size AVP, 4 when absent).  If at that moment at
    most one message is outstanding (LNS: none; LAC: its SCCRQ) then after EVERY later sequence of inbound
-   messages (any type, accepted or not, any handler replies) and Ticks: the number of transmitted,
+   messages (any type, accepted or not, any handler replies), locally originated messages (NSend: Hellos, session
+   set-up; with any write fault) and Ticks: the number of transmitted,
    unacknowledged messages is at most the advertised window (clamped to >= 1), the channel's window field
    still equals it and cwnd never exceeds it.  No bookkeeping field in the statement. *)
 Theorem C16_window_advertised :
@@ -379,3 +380,22 @@ Theorem C16_reachable_inv :
   dir_inv oa (s_a s) (s_b s) /\ dir_inv ob (s_b s) (s_a s).
 Proof. exact reachable_inv. Qed.
 Print Assumptions C16_reachable_inv.
+
+(* non-vacuity of the accounting / quiescence theorems: the wrap_run execution ends with A quiescent (everything
+   delivered) and B's message handed over but still queued, in flight, unacknowledged *)
+Example C16_accounting_nonvacuous :
+  let s := run false (init_sys (100, 400, 3, 50, 1) (100, 400, 3, 50, 1) 65535 32767) wrap_run in
+  c_q (e_ch (s_a s)) = [] /\ e_dead (s_a s) = 0%nat /\ e_del (s_b s) = e_sub (s_a s) /\
+  map p_att (c_q (e_ch (s_b s))) = [1] /\ e_sub (s_b s) = [200] /\ e_del (s_a s) = [200] /\ e_acked (s_b s) = [].
+Proof. exact accounting_example. Qed.
+Print Assumptions C16_accounting_nonvacuous.
+
+(* non-vacuity of C16_runner_reaches_zlb: ZLB armed for 250, Tick at 200 sends nothing and reports 250, the runner
+   comes back at 250 and that Tick sends the acknowledgement *)
+Example C16_runner_zlb_nonvacuous :
+  let c := fst (fst (fst (recv ex_conf (new_chan 1) 0 0 200 None))) in
+  c_zlb c = Some 250 /\
+  (let '(c', o, d, ret) := tick ex_conf c 200 in o = [] /\ d = false /\ ret = Some 250 /\ runner_next ret 200 = 250) /\
+  (let '(c', o, d, ret) := tick ex_conf c 250 in map k_nr o = [1] /\ c_zlb c' = None).
+Proof. exact runner_zlb_example. Qed.
+Print Assumptions C16_runner_zlb_nonvacuous.
